@@ -63,7 +63,37 @@ contract(
 )
 
 
-def _tables(rng, n, kmax):
+# ----------------------------------------------------------------------------- image + blurring image
+_T4B = {"blurring_frame_1d_indexes": "int[2]", "blurring_frame_1d_kernels": "real[2]", "blurring_frame_1d_lengths": "int[1]"}
+_BF = ("blurring_frame_1d_indexes", "blurring_frame_1d_kernels", "blurring_frame_1d_lengths")
+_IMG_SUM = "sumto({n}, lambda s: I[s] * bop(image_frame_1d_indexes, image_frame_1d_kernels, image_frame_1d_lengths, t, s))"
+_BLR_SUM = "sumto({n}, lambda s: IB[s] * bop(blurring_frame_1d_indexes, blurring_frame_1d_kernels, blurring_frame_1d_lengths, t, s))"
+_IMG_PART = " + image_value * sumto(kernel_1d_index, lambda k: (image_frame_1d_kernels[image_1d_index, k] if image_frame_1d_indexes[image_1d_index, k] == t else 0))"
+_BLR_PART = " + image_value * sumto(kernel_1d_index, lambda k: (blurring_frame_1d_kernels[blurring_1d_index, k] if blurring_frame_1d_indexes[blurring_1d_index, k] == t else 0))"
+
+contract(
+    CV + "convolve_jit", props=["C03"],
+    types={"image_1d_array": "real[1]", **_T4, "blurring_1d_array": "real[1]", **_T4B}, returns="real[1]",
+    let={"N": "image_1d_array.shape[0]", "I": "image_1d_array", "NB": "blurring_1d_array.shape[0]", "IB": "blurring_1d_array"},
+    # image table: one row per unmasked pixel; blurring table: one row per blurring pixel; every listed target is a slim index < N
+    requires=_tbl(*_IF, "N") + _tbl(*_BF, "NB"),
+    ensures=["result.shape[0] == N",
+             # the blurred value at slim pixel t is the image operator applied to the image plus the blurring operator applied
+             # to the blurring image: nothing else is read
+             "forall(0, N, lambda t: result[t] == " + _IMG_SUM.format(n="N") + " + " + _BLR_SUM.format(n="NB") + ")"],
+    loops={
+        0: {"inv": ["forall(0, N, lambda t: blurred_image_1d[t] == " + _IMG_SUM.format(n="image_1d_index") + ")"]},
+        1: {"inv": ["forall(0, N, lambda t: blurred_image_1d[t] == " + _IMG_SUM.format(n="image_1d_index") + _IMG_PART + ")"]},
+        2: {"inv": ["forall(0, N, lambda t: blurred_image_1d[t] == " + _IMG_SUM.format(n="N") + " + " + _BLR_SUM.format(n="blurring_1d_index") + ")"]},
+        3: {"inv": ["forall(0, N, lambda t: blurred_image_1d[t] == " + _IMG_SUM.format(n="N") + " + " + _BLR_SUM.format(n="blurring_1d_index") + _BLR_PART + ")"]},
+    },
+    sentence={"sumto": "blurring a masked image together with its blurring-region image applies the linear operators encoded by the two "
+                       "frame tables to exactly those two images (values outside the mask and its blurring region are never read)"},
+)
+
+
+def _tables(rng, n, kmax, ntarget=None):
+    ntarget = n if ntarget is None else ntarget
     K = rng.randint(1, kmax)
     idx = -np.ones((n, K), dtype=int)
     ker = -np.ones((n, K))
@@ -71,7 +101,7 @@ def _tables(rng, n, kmax):
     for s in range(n):
         ln[s] = rng.randint(0, K)
         for k in range(ln[s]):
-            idx[s, k] = rng.randrange(n)
+            idx[s, k] = rng.randrange(ntarget)
             ker[s, k] = rng.choice([rng.uniform(-2, 2), 0.0, 1.0])
     return idx, ker, ln
 
@@ -93,6 +123,194 @@ def _g_mat(rng, tier):
         yield {"mapping_matrix": m, "image_frame_1d_indexes": idx, "image_frame_1d_kernels": ker, "image_frame_1d_lengths": ln}
 
 
+def _g_full(rng, tier):
+    for _ in range(gens.budget(tier, 200, 3000)):
+        n, nb = rng.randint(1, 5), rng.randint(0, 5)
+        idx, ker, ln = _tables(rng, n, 5)
+        bidx, bker, bln = _tables(rng, nb, 5, ntarget=n)
+        yield {"image_1d_array": gens.reals(rng, (n,)), "image_frame_1d_indexes": idx, "image_frame_1d_kernels": ker,
+               "image_frame_1d_lengths": ln, "blurring_1d_array": gens.reals(rng, (nb,)), "blurring_frame_1d_indexes": bidx,
+               "blurring_frame_1d_kernels": bker, "blurring_frame_1d_lengths": bln}
+
+
+CONTRACTS[CV + "convolve_jit"].gen = _g_full
+CONTRACTS[CV + "convolve_jit"].nontrivial = lambda blurring_1d_array, blurring_frame_1d_lengths, **kw: bool(
+    len(blurring_1d_array) and (blurring_frame_1d_lengths > 0).any())
 CONTRACTS[CV + "convolve_no_blurring_jit"].gen = _g_nb
 CONTRACTS[CV + "convolve_matrix_jit"].gen = _g_mat
 CONTRACTS[CV + "convolve_matrix_jit"].nontrivial = lambda mapping_matrix, **kw: bool((mapping_matrix < 0).any())
+
+
+# ----------------------------------------------------------------------------- frame construction
+# the target pixel of kernel offset (i, j) for the source pixel (cx, cy): source - half + (i, j)
+_TX, _TY = "cx - hx + {i}", "cy - hy + {j}"
+
+
+def _tgt(i, j):
+    return _TX.format(i=i), _TY.format(j=j)
+
+
+def _valid(i, j):
+    tx, ty = _tgt(i, j)
+    return ("(0 <= {tx} and {tx} < MH and 0 <= {ty} and {ty} < MW and mask_index_array[{tx}, {ty}] >= 0"
+            " and not mask[{tx}, {ty}])").format(tx=tx, ty=ty)
+
+
+# the "not a valid target" mask over the kernel window: its unmasked entries are exactly the kernel offsets whose target lies
+# inside the array, carries a slim index (mask_index_array >= 0) and is unmasked; cnt2 over it ranks them in row-major order
+_V = "arr2(Kx, Ky, lambda a, b: not " + _valid("a", "b") + ")"
+
+
+def _entry(fr, kf, i, j):
+    tx, ty = _tgt(i, j)
+    return ("implies(not V[{i}, {j}], {fr}[cnt2(V, {i}, {j})] == mask_index_array[{tx}, {ty}]"
+            " and {kf}[cnt2(V, {i}, {j})] == kernel_2d[{i}, {j}])").format(fr=fr, kf=kf, i=i, j=j, tx=tx, ty=ty)
+
+
+# consequences used by the corollary below, under the extra hypothesis that the index table is the slim-index table of the mask
+_SLIM = "forall(0, MH, lambda y: forall(0, MW, lambda x: implies(not mask[y, x], mask_index_array[y, x] == cnt2(mask, y, x)), pat=mask_index_array[y, x]))"
+_OFFI, _OFFJ = "a - cx + hx", "b - cy + hy"
+_INWIN = "(0 <= a - cx + hx and a - cx + hx < Kx and 0 <= b - cy + hy and b - cy + hy < Ky)"
+
+
+def _hit(fr, kf):       # an unmasked pixel (a, b) whose offset from the source lies inside the kernel is listed, at the rank of its offset
+    return ("implies(" + _SLIM + ", forall(0, MH, lambda a: forall(0, MW, lambda b: implies(not mask[a, b] and " + _INWIN + ","
+            " 0 <= cnt2(V, {i}, {j}) and cnt2(V, {i}, {j}) < total(V) and {fr}[cnt2(V, {i}, {j})] == cnt2(mask, a, b)"
+            " and {kf}[cnt2(V, {i}, {j})] == kernel_2d[{i}, {j}]), pat=cnt2(mask, a, b))))").format(fr=fr, kf=kf, i=_OFFI, j=_OFFJ)
+
+
+def _only(fr):          # ... and it is listed nowhere else: an entry equal to the slim index of (a, b) is that one
+    return ("implies(" + _SLIM + ", forall(0, total(V), lambda c: forall(0, MH, lambda a: forall(0, MW, lambda b:"
+            " implies(not mask[a, b] and {fr}[c] == cnt2(mask, a, b), " + _INWIN + " and c == cnt2(V, {i}, {j})),"
+            " pat=(({fr}[c], cnt2(mask, a, b)),)))))").format(fr=fr, i=_OFFI, j=_OFFJ)
+
+
+_NTH = ("forall(0, total(V), lambda c: {fr}[c] == mask_index_array[" + _TX.format(i="pixy(V, c)") + ", " + _TY.format(j="pixx(V, c)") + "]"
+        " and {kf}[c] == kernel_2d[pixy(V, c), pixx(V, c)], pat=({fr}[c], {kf}[c]))")
+
+_FR_ROWS = "forall(0, i, lambda ii: forall(0, Ky, lambda jj: " + _entry("frame", "kernel_frame", "ii", "jj") + "))"
+_FR_ROW = "forall(0, j, lambda jj: " + _entry("frame", "kernel_frame", "i", "jj") + ")"
+_FR_REST = "forall(count, Kx * Ky, lambda k: frame[k] == -1 and kernel_frame[k] == -1)"
+
+contract(
+    CV + "frame_at_coordinates_jit", props=["C03"],
+    types={"coordinates": "(int,int)", "mask": "bool[2]", "mask_index_array": "int[2]", "kernel_2d": "real[2]"},
+    returns="(real[1],real[1])",
+    let={"Kx": "kernel_2d.shape[0]", "Ky": "kernel_2d.shape[1]", "hx": "kernel_2d.shape[0] // 2", "hy": "kernel_2d.shape[1] // 2",
+         "cx": "coordinates[0]", "cy": "coordinates[1]", "MH": "mask_index_array.shape[0]", "MW": "mask_index_array.shape[1]",
+         "V": _V},
+    # the index table has the shape of the mask (Convolver.__init__: np.full(mask.shape, -1)); no oddness assumption is needed here
+    requires=["mask.shape[0] == MH", "mask.shape[1] == MW"],
+    ensures=[
+        "result[0].shape[0] == Kx * Ky", "result[1].shape[0] == Kx * Ky", "total(V) <= Kx * Ky",
+        # front-packed: the valid kernel offset (i, j) of row-major rank c = cnt2(V, i, j) is stored at entry c
+        "forall(0, Kx, lambda i: forall(0, Ky, lambda j: " + _entry("result[0]", "result[1]", "i", "j") + "))",
+        # ... entry c is the c-th valid offset (nothing else is stored in front)
+        _NTH.format(fr="result[0]", kf="result[1]"),
+        # ... and every later entry is -1
+        "forall(total(V), Kx * Ky, lambda k: result[0][k] == -1 and result[1][k] == -1)",
+        # with the slim-index table: each unmasked pixel inside the kernel footprint of the source is listed exactly once, with
+        # the kernel value at offset target - source + half (used by the corollary C03.tables_encode_convolution)
+        _hit("result[0]", "result[1]"), _only("result[0]"),
+        # the number of entries >= 0 is the number of valid targets (Convolver.__init__ takes frame[frame >= 0].shape[0] as the length)
+        "total1(arr1(Kx * Ky, lambda k: result[0][k] < 0)) == total(V)",
+    ],
+    ghost_at={4: [{"rebind": {"half_x": "hx", "half_y": "hy"}}],
+              8: [_NTH.format(fr="frame", kf="kernel_frame"), _hit("frame", "kernel_frame"), _only("frame"),
+                  {"induct": "n", "lo": 0, "hi": "Kx * Ky",
+                   "stmt": "cnt1(arr1(Kx * Ky, lambda k: frame[k] < 0), n) == (n if n <= total(V) else total(V))"}]},
+    loops={
+        0: {"inv": ["count == cnt2(V, i, 0)", "count <= i * Ky", _FR_ROWS, _FR_REST]},
+        1: {"inv": ["count == cnt2(V, i, j)", "count <= i * Ky + j", _FR_ROWS, _FR_ROW, _FR_REST]},
+    },
+    sentence={"forall": "frame construction: target = source - half + (i, j) with kernel value kernel[i, j], for exactly the in-frame "
+                        "unmasked targets, in (i, j) order, front-packed, -1 after"},
+)
+
+
+def _g_frame(rng, tier):
+    shapes = [(1, 1), (3, 3), (1, 3), (3, 1), (5, 3), (3, 5), (2, 3), (4, 2)]
+    for _ in range(gens.budget(tier, 250, 4000)):
+        m = gens.random_mask(rng, 6, 6)
+        H, W = m.shape
+        mia = np.full(m.shape, -1)
+        mia[~m] = np.arange(int((~m).sum()))
+        if rng.random() < 0.25:        # tables that are not the slim-index table (entries -1 at unmasked pixels, arbitrary values)
+            mia = np.array([[rng.choice([-1, -1, rng.randrange(50)]) for _ in range(W)] for _ in range(H)])
+        kx, ky = rng.choice(shapes)
+        yield {"coordinates": (rng.randrange(H), rng.randrange(W)), "mask": m, "mask_index_array": mia,
+               "kernel_2d": gens.reals(rng, (kx, ky), -2, 2)}
+
+
+CONTRACTS[CV + "frame_at_coordinates_jit"].gen = _g_frame
+CONTRACTS[CV + "frame_at_coordinates_jit"].nontrivial = lambda mask, kernel_2d, **kw: bool(kernel_2d.size > 1 and 0 < mask.sum() < mask.size)
+
+
+# ----------------------------------------------------------------------------- the tables encode true convolution
+from pyvc.contract import spec_fn, corollary
+
+
+def _row_py(IDX, KER, s, t, n):
+    if not (0 <= s < IDX.shape[0] and s < KER.shape[0]):
+        return 0.0
+    return float(sum(KER[s, k] for k in range(min(int(n), IDX.shape[1], KER.shape[1])) if int(IDX[s, k]) == t))
+
+
+# partial sums of one operator entry: c03_row(IDX, KER, s, t, n) = sum_{k<n} [IDX[s,k] == t] KER[s,k]   (bop = c03_row at n = ln[s])
+_ROW_OK = "0 <= s and s < IDX.shape[0] and s < KER.shape[0]"
+spec_fn(
+    "c03_row", params=[("IDX", "int[2]"), ("KER", "real[2]"), ("s", "$int"), ("t", "$int"), ("n", "int")], ret="real",
+    let={"K": "(IDX.shape[1] if IDX.shape[1] <= KER.shape[1] else KER.shape[1])"},
+    axioms=["c03_row(IDX, KER, s, t, 0) == 0",
+            "implies(" + _ROW_OK + ", forall(0, K, lambda n: c03_row(IDX, KER, s, t, n + 1) == c03_row(IDX, KER, s, t, n)"
+            " + (KER[s, n] if IDX[s, n] == t else 0), pat=c03_row(IDX, KER, s, t, n + 1)))"],
+    lemmas=[
+        # it is the partial sum that `bop` abbreviates
+        dict(name="sum", induct="n", lo=0, hi="K",
+             stmt="implies(" + _ROW_OK + ", c03_row(IDX, KER, s, t, n) == sumto(n, lambda k: (KER[s, k] if IDX[s, k] == t else 0)))"),
+        # no listed target equals t: the entry is zero
+        dict(name="zero", induct="n", lo=0, hi="K",
+             stmt="implies(" + _ROW_OK + " and forall(0, n, lambda k: IDX[s, k] != t), c03_row(IDX, KER, s, t, n) == 0)"),
+        # exactly one listed target equals t: the entry is that target's kernel value
+        dict(name="single", induct="n", lo=0, hi="K",
+             stmt="implies(" + _ROW_OK + ", forall(0, n, lambda k0: implies(IDX[s, k0] == t and forall(0, n, lambda k: k == k0 or IDX[s, k] != t),"
+                  " c03_row(IDX, KER, s, t, n) == KER[s, k0]), pat=IDX[s, k0]))"),
+    ],
+    py=_row_py,
+    doc="one entry of the blurring operator encoded by a frame table, as a partial sum over the row",
+)
+
+# For ANY source pixel (cx, cy) of the array (unmasked: a row of the image tables; masked: a row of the blurring tables) whose table
+# row s holds the frame built by frame_at_coordinates_jit from the slim-index table, and ANY unmasked target pixel (a, b) with slim
+# index t = cnt2(mask, a, b): the operator entry is the kernel value at offset target - source + half if that offset lies inside the
+# kernel, and 0 otherwise -- i.e. out[t] = sum_s I[s] * kernel[t - s + half]: 2-D convolution, zero outside the frame, restricted to
+# the mask.  (Convolver.__init__, which copies the frames into the rows and counts the entries >= 0, is left to the bounded checks.)
+_OFF_IN = "(0 <= a - cx + hx and a - cx + hx < Kx and 0 <= b - cy + hy and b - cy + hy < Ky)"
+# "row s of the tables was built this way": it holds the frame pair, and its length is the number of frame entries >= 0
+_ROWCOPY = ("forall(0, Kx * Ky, lambda k: idx[s, k] == fr[0][k] and ker[s, k] == fr[1][k], pat=(idx[s, k], fr[0][k]))"
+            " and ln[s] == total1(arr1(Kx * Ky, lambda k: fr[0][k] < 0))")
+corollary(
+    "C03.tables_encode_convolution", props=["C03"],
+    vars={"mask": "bool[2]", "mia": "int[2]", "kernel": "real[2]", "idx": "int[2]", "ker": "real[2]", "ln": "int[1]",
+          "cx": "int", "cy": "int", "s": "int", "a": "int", "b": "int"},
+    let={"H": "mask.shape[0]", "W": "mask.shape[1]", "Kx": "kernel.shape[0]", "Ky": "kernel.shape[1]",
+         "hx": "kernel.shape[0] // 2", "hy": "kernel.shape[1] // 2"},
+    requires=[
+        "mia.shape[0] == H", "mia.shape[1] == W",
+        # the index table is the slim-index table (first loop nest of Convolver.__init__)
+        "forall(0, H, lambda y: forall(0, W, lambda x: implies(not mask[y, x], mia[y, x] == cnt2(mask, y, x))))",
+        "0 <= cx", "cx < H", "0 <= cy", "cy < W", "0 <= a", "a < H", "0 <= b", "b < W", "not mask[a, b]",
+        "0 <= s", "s < idx.shape[0]", "ker.shape[0] == idx.shape[0]", "ln.shape[0] == idx.shape[0]",
+        "idx.shape[1] == Kx * Ky", "ker.shape[1] == Kx * Ky", "0 <= ln[s]", "ln[s] <= Kx * Ky",
+    ],
+    calls=[("fr", CV + "frame_at_coordinates_jit", {"coordinates": "(cx, cy)", "mask": "mask", "mask_index_array": "mia", "kernel_2d": "kernel"})],
+    ensures=[
+        # the operator entry B[t, s] used by the convolve_* contracts is the row sum c03_row at n = ln[s] ...
+        "bop(idx, ker, ln, cnt2(mask, a, b), s) == c03_row(idx, ker, s, cnt2(mask, a, b), ln[s])",
+        # ... which is kernel[target - source + half] when that offset lies inside the kernel, and 0 otherwise
+        "implies(" + _ROWCOPY + " and " + _OFF_IN + ", c03_row(idx, ker, s, cnt2(mask, a, b), ln[s]) == kernel[a - cx + hx, b - cy + hy])",
+        "implies(" + _ROWCOPY + " and not " + _OFF_IN + ", c03_row(idx, ker, s, cnt2(mask, a, b), ln[s]) == 0)",
+    ],
+    sentence="at every unmasked pixel the operator encoded by the frame tables is the 2-D convolution with the flipped, centred kernel "
+             "(zero outside the frame), for every odd or even kernel shape with arbitrary real entries",
+)
